@@ -575,7 +575,8 @@ class Model:
                 args, kwargs = self.args_of(t)
                 if not kwargs:
                     return Opq("partial", args[0], tuple(args[1:]))
-            if nm.startswith("genjax.") and self.evaluator is not None and nm.rsplit(".", 1)[-1].startswith("_"):
+            if nm.startswith("genjax.") and self.evaluator is not None and (nm.rsplit(".", 1)[-1].startswith("_")
+                                                                            or any(part.startswith("_") for part in nm.split(".")[1:-1])):
                 # an unmodelled private module-level helper: evaluated from its own definition on the model values
                 try:
                     look = self.evaluator.p.lookup(nm)
